@@ -77,7 +77,10 @@ class C19(core.Prop):
              'linalg_functions.vector_angle_degrees: an arbitrary angle in [0, 180] (arccos is transcendental); np.isclose(a, 120, atol=10) '
              'decided on that real; linalg_functions.rotate_degrees: rotation about the given origin by an arbitrary (cos, sin) pair '
              '(c*c + s*s = 1 only in the witness): both over-approximate the real kernels, so a violation is reported only if the '
-             'unmodified kernels reproduce it on the concrete witness']
+             'unmodified kernels reproduce it on the concrete witness',
+             'linalg_functions.rotate_to_axis (align_with option): an arbitrary rotation about the origin, over-approximated in the same way; '
+             'in addition every path\'s witness is run through the unmodified angle / rotation / alignment kernels (one concrete point per path: '
+             'this part is a validated sample, not a decision over all values)']
     ASSUMPTIONS = ['REDUCED claim: finiteness and non-coincidence of the positions produced by the placement engines (iterative floating-point '
                    'optimisation with its own RNG inside networkx/scipy) are the stub contract, not decided here',
                    'ez_isomer annotations as the resolver writes them: item (n1, n2, n3, n4, type) on n1 and the reversed item on n4',
@@ -85,11 +88,11 @@ class C19(core.Prop):
                    'witness validation runs the unmodified cgsmiles.graph_layout with the same stubs on concrete rational positions whose '
                    'norms are computed in floating point (compared with tolerance 1e-6)']
     OUTSIDE = ['the placement itself (Fruchterman-Reingold / Kamada-Kawai numerics)', 'that rotated subgraphs do not land on other nodes',
-               'align_with rotation']
+               'graphs changed in place by the caller between two layout calls']
     BOUNDS = {
         'quick': 'all connected graphs with 2-4 nodes and chains/rings/stars with 5 nodes, each in 3 labelings (atlas keys, reversed '
                  'insertion order, non-contiguous keys); 3 graphs with a cis or trans annotated double bond (chain, substituted, in a ring) in '
-                 '2 labelings; default_bond symbolic > 0',
+                 '2 labelings; every fifth shape also with align_with in {(1,0),(0,1),(1,1)}, every sixth as a two-call history on one graph object; default_bond symbolic > 0',
         'thorough': 'all connected graphs with 2-5 nodes (all labelings <= 4 nodes, 6 for 5 nodes) and chains, rings, stars, fused rings '
                     'with 6-7 nodes; 6 annotated graphs (two double bonds, next to a ring, with hydrogens) x cis/trans x 3 labelings x 2 key sets',
     }
@@ -108,19 +111,24 @@ class C19(core.Prop):
 
         angle_f = SH.linalg_functions.vector_angle_degrees
         rot_f = SH.linalg_functions.rotate_degrees
+        axis_f = SH.linalg_functions.rotate_to_axis
 
         def pred(f, a, kw):
             if f is real_np.array:
                 return len(a) == 1 and isinstance(a[0], list) and a[0] and all(isinstance(x, SymVec) for x in a[0])
             if f is real_np.isclose:
                 return symx.is_sym(a[0])
-            return f in (nx.fruchterman_reingold_layout, nx.kamada_kawai_layout, real_np.linalg.norm, angle_f, rot_f)
+            return f in (nx.fruchterman_reingold_layout, nx.kamada_kawai_layout, real_np.linalg.norm, angle_f, rot_f, axis_f)
 
         def handler(f, a, kw):
             if f is real_np.linalg.norm:
                 return PLACE.norm(a[0])
             if f is angle_f:
                 return PLACE.angle()
+            if f is axis_f:
+                # align_with: a rotation of all positions about the origin by an angle that depends on the positions
+                # (pdist / argmax / arctan2): over-approximated by an arbitrary rotation, like rotate_degrees
+                return PLACE.rotate(list(a[0]), SymVec([0, 0]))
             if f is rot_f:
                 return PLACE.rotate(list(a[0]), kw['origin'] if 'origin' in kw else a[2])
             if f is real_np.array:
@@ -204,6 +212,9 @@ class C19(core.Prop):
             for p in perms:
                 out.append({'edges': [list(e) for e in edges], 'n': n, 'perm': p, 'stride': 1})
             out.append({'edges': [list(e) for e in edges], 'n': n, 'perm': list(range(n)), 'stride': 5})
+        # the align_with option (rotation of the finished layout onto an axis)
+        for s_ in list(out)[::(5 if q else 4)]:
+            out.append(dict(s_, align=[[1, 0], [0, 1], [1, 1]][len(out) % 3]))
         # history: the same graph object laid out twice with different bond lengths
         for s_ in list(out)[::(6 if q else 9)]:
             out.append(dict(s_, calls=2))
@@ -259,12 +270,13 @@ class C19(core.Prop):
         if getattr(M, 'is_shadow', False):
             def plain(res):
                 return {str(n): (list(v.xs) if isinstance(v, SymVec) else [float(x) for x in v]) for n, v in res.items()}
-            r = core.guard(M.graph_layout.vespr_layout, g, default_bond=inp['bond'])
+            akw = {'align_with': list(shape['align'])} if shape.get('align') else {}
+            r = core.guard(M.graph_layout.vespr_layout, g, default_bond=inp['bond'], **akw)
             if r[0] == 'ok':
                 r = ('ok', plain(r[1]))     # a snapshot: later calls may not change what this call returned... and we look at it as returned
             self._marks = [(len(PLACE.norms), len(symx.ENG.memo.get('quotients', [])))]
             if r[0] == 'ok' and 'bond2' in inp:
-                r2 = core.guard(M.graph_layout.vespr_layout, g, default_bond=inp['bond2'])
+                r2 = core.guard(M.graph_layout.vespr_layout, g, default_bond=inp['bond2'], **akw)
                 self._marks.append((len(PLACE.norms), len(symx.ENG.memo.get('quotients', []))))
                 r = ('ok', {'first': r[1], 'second': plain(r2[1])}) if r2[0] == 'ok' else r2
             inp['placed'] = [{str(n): list(v.xs) for n, v in placed.items()} for placed in PLACE.placements]
@@ -291,7 +303,9 @@ class C19(core.Prop):
         nx.fruchterman_reingold_layout = place
         nx.kamada_kawai_layout = place
         U = M.graph_layout_utils
-        o3, o4 = U.vector_angle_degrees, U.rotate_degrees
+        GL = M.graph_layout
+        o3, o4, o5 = U.vector_angle_degrees, U.rotate_degrees, GL.rotate_to_axis
+        akw = {'align_with': np.array(shape['align'], dtype=float)} if shape.get('align') else {}
         if stub_linalg:
             angles = [float(a) for a in inp.get('angles') or []]
             rots = [(float(c), float(s_)) for c, s_ in inp.get('rots') or []]
@@ -306,21 +320,45 @@ class C19(core.Prop):
                 count['r'] += 1
                 d = np.asarray(position) - origin
                 return np.column_stack((c * d[:, 0] - s_ * d[:, 1], s_ * d[:, 0] + c * d[:, 1])) + origin
-            U.vector_angle_degrees, U.rotate_degrees = angle_stub, rot_stub
+
+            def axis_stub(positions, align_with):
+                return rot_stub(positions, None, origin=np.array([0.0, 0.0]))
+            U.vector_angle_degrees, U.rotate_degrees, GL.rotate_to_axis = angle_stub, rot_stub, axis_stub
 
         def plain(res):
             return {str(n): [float(x) for x in v] for n, v in res.items()}
         try:
-            r = core.guard(M.graph_layout.vespr_layout, g, default_bond=float(inp['bond']))
+            r = core.guard(M.graph_layout.vespr_layout, g, default_bond=float(inp['bond']), **akw)
             if r[0] == 'ok':
                 r = ('ok', plain(r[1]))
             if r[0] == 'ok' and 'bond2' in inp:
-                r2 = core.guard(M.graph_layout.vespr_layout, g, default_bond=float(inp['bond2']))
+                r2 = core.guard(M.graph_layout.vespr_layout, g, default_bond=float(inp['bond2']), **akw)
                 r = ('ok', {'first': r[1], 'second': plain(r2[1])}) if r2[0] == 'ok' else r2
         finally:
             nx.fruchterman_reingold_layout, nx.kamada_kawai_layout = o1, o2
-            U.vector_angle_degrees, U.rotate_degrees = o3, o4
+            U.vector_angle_degrees, U.rotate_degrees, GL.rotate_to_axis = o3, o4, o5
         return r
+
+    def _overapproximated(self, shape):
+        return bool(shape.get('ez') or shape.get('align'))
+
+    def witness_clauses(self, OR, shape, cinp):
+        """the path's witness through the unmodified angle / rotation / alignment kernels (only the placement stubbed)"""
+        if not self._overapproximated(shape):
+            return []
+        g = self._graph(shape)
+        r = self._real_run(OR, shape, cinp, stub_linalg=False)
+        if r[0] != 'ok':
+            return [('no_exception_with_real_kernels', r[1] == 'ZeroDivisionError')]
+        two = 'bond2' in cinp
+        rets = [r[1]['first'], r[1]['second']] if two else [r[1]]
+        bonds = [cinp['bond'], cinp['bond2']] if two else [cinp['bond']]
+        out = []
+        for ret, bond in zip(rets, bonds):
+            if sorted(ret.keys()) != sorted(str(n) for n in g.nodes):
+                return [('one_position_per_node', False)]
+            out += self._concrete_clauses(g, bond, ret)
+        return out
 
     def oracle(self, shape, inp, obs):
         g = self._graph(shape)
@@ -386,21 +424,16 @@ class C19(core.Prop):
         bad = []
         for ret, bond in zip(rets, bonds):
             bad += self._concrete_clauses(g, bond, ret)
-        if shape.get('ez') and not all(c for _n, c in bad) and getattr(self, '_OR', None) is not None and not getattr(self, '_in_real', False):
-            # the angle and rotation kernels were over-approximated: a violation counts only if the unmodified kernels show it too
+        if self._overapproximated(shape) and getattr(self, '_OR', None) is not None and not getattr(self, '_in_real', False):
+            # the angle / rotation / alignment kernels were over-approximated: the unmodified kernels decide
             self._in_real = True
             try:
-                r2 = self._real_run(self._OR, shape, inp, stub_linalg=False)
+                bad2 = self.witness_clauses(self._OR, shape, inp)
             finally:
                 self._in_real = False
-            if r2[0] != 'ok':
-                return cl + [('no_exception_with_real_kernels', False)]
-            rets2 = [r2[1]['first'], r2[1]['second']] if two else [r2[1]]
-            bad2 = []
-            for ret, bond in zip(rets2, bonds):
-                bad2 += self._concrete_clauses(g, bond, ret)
-            if all(c for _n, c in bad2):
+            if all(c for _n, c in bad2) and not all(c for _n, c in bad):
                 raise symx.Unsupported('violation only under the over-approximated angle/rotation kernels; not shown by the real ones')
+            return cl + bad2
         return cl + bad
 
     @staticmethod
